@@ -5,9 +5,9 @@ sys.path.insert(0, os.path.join(os.path.dirname(os.path.abspath(__file__)), ".."
 from vlib import *
 import framegen as fg
 
+from rconn import *
+
 PID = "C01"
-HEADER = "From ZV Require Import Common.Exec Framing.ReadConn Framing.ReadConnExec.\nOpen Scope N_scope.\n"
-RES = {"err:eof": 1000001, "err:overflow": 1000002, "err:io": 1000003}
 
 
 def gen_cases(ck, limit, step):
@@ -118,41 +118,9 @@ def gen_cases(ck, limit, step):
     return cases
 
 
-def render_case(c, res, codes, step, limit):
-    tab = []
-    for hx, s in res["segs"].items():
-        tab.append("(%s, %d)" % (coq_bytes(bytes.fromhex(hx)), codes[s]))
-    expect = []
-    for op in res["ops"]:
-        expect.append("[%d;%d;%d;%d]" % (codes[op["res"]], op["st"][0], op["st"][1], op["st"][2]))
-    return ("{| rc_step := %d; rc_limit := %d; rc_tab := %s; rc_events := %s; rc_n := %d%%nat; "
-            "rc_frames := %s; rc_inhyp := %s; rc_expect := %s |}") % (
-        step, limit, coq_list(tab), fg.coq_events(c["events"]), c["n"],
-        coq_list([coq_bytes(bytes.fromhex(f)) for f in c["frames"]]),
-        "true" if c["inhyp"] else "false", coq_list(expect))
-
-
-def code_table(results):
-    codes = dict(RES)
-    nxt = 1
-    for r in results:
-        for s in list(r.get("segs", {}).values()) + [op["res"] for op in r.get("ops", [])]:
-            if s not in codes:
-                codes[s] = nxt
-                nxt += 1
-    return codes
-
-
 def main():
     ck = Check(PID)
-    rc, out = sh([sys.executable, os.path.join(VERIF, "translate", "consts.py")])
-    m = re.search(r"BUFFER_SIZE=(\d+) MAX_BUFFER_SIZE=(\d+) HOOK_MAX=(\d+)", out)
-    if rc != 0 or not m:
-        ck.proof_ok, ck.broken, ck.proof_log = False, "translator consts.py: " + out.strip()[-300:], out
-        step, limit = 256, 4096
-    else:
-        step, limit = int(m.group(1)), int(m.group(3))
-        ck.samples.append("translated: " + out.strip())
+    step, limit, _prod = constants(ck)
     if getattr(ck, "proof_ok", True):
         ck.prove(["gen/Consts.v", "Framing/ReadConnExec.v"], "props/C01.v")
 
